@@ -127,6 +127,96 @@ def mk_region_case(rng):
                                             'depth': depth, 'circle': [float(ra), float(dec), float(rad)], 'kind': kind, 'region': {str(d): sorted(int(p) for p in ps) for d, ps in reg.pixeldict.items() if ps}}
 
 
+def membership_table(wh, reg, depth, R, C):
+    """inside(x, y) for FITS pixels over [0, C+1] x [0, R+1], INDEPENDENT of Region.sky_within (WCS position, healpy pixel,
+    ancestors looked up in a copy of pixeldict)"""
+    import copy
+    import healpy as hp
+    pts = [(xx, yy) for yy in range(0, R + 2) for xx in range(0, C + 2)]
+    sky = wh.wcs.wcs_pix2world(pts, 1)
+    ipix = hp.ang2pix(2 ** depth, np.pi / 2 - np.radians(sky[:, 1]), np.radians(sky[:, 0]), nest=True)
+    stored = {int(d): {int(p) for p in ps} for d, ps in copy.deepcopy(reg.pixeldict).items() if ps}
+    ins = [any((int(q) >> (2 * (depth - d))) in ps for d, ps in stored.items() if d <= depth) for q in ipix]
+    return {p for p, b in zip(pts, ins) if b}
+
+
+def stored_json(reg):
+    return {str(d): sorted(int(p) for p in ps) for d, ps in reg.pixeldict.items() if ps}
+
+
+def reuse_op(rng, wh, meta):
+    """a modification of a region that has already been queried: pixels added (a disc elsewhere on the image) or removed
+    (a disc around the original centre); given as pixel lists so that the replay file is self-contained"""
+    import healpy as hp
+    R, C = meta['shape']
+    depth = meta['depth']
+    if rng.random() < 0.5:
+        x, y = rng.uniform(1, C), rng.uniform(1, R)
+        ra, dec = wh.wcs.wcs_pix2world([(x, y)], 1)[0]
+        kind = 'add'
+    else:
+        ra, dec = meta['circle'][0], meta['circle'][1]
+        kind = 'without'
+    rad = max(meta['circle'][2], 1e-3) * rng.uniform(0.5, 1.5)
+    d = max(1, depth - rng.randint(0, 2))
+    ps = hp.query_disc(2 ** d, hp.ang2vec(np.pi / 2 - np.radians(dec), np.radians(ra)), np.radians(rad), inclusive=True, nest=True)
+    return {'op': kind, 'd': int(d), 'ps': sorted(int(p) for p in ps)}
+
+
+def apply_reuse_op(reg, op, depth):
+    from AegeanTools.regions import Region
+    if op['op'] == 'add':
+        reg.add_pixels(op['ps'], op['d'])
+    else:
+        other = Region(maxdepth=depth)
+        other.add_pixels(op['ps'], op['d'])
+        reg.without(other)
+
+
+def reuse_problem(case, wh, reg, meta, op):
+    """finder with the region; modify the SAME region object; finder again: the second run must follow the modified region"""
+    R, C = meta['shape']
+    free = ic.run_impl(case)
+    out = []
+    for step in (0, 1):
+        if step == 1:
+            apply_reuse_op(reg, op, meta['depth'])
+        table = membership_table(wh, reg, meta['depth'], R, C)
+        got = ic.run_impl(case, region=reg, wcs=wh)
+        exp = [isl for isl in free if isinstance(isl[1], list) and any((c + 1, r + 1) in table for r, c in isl[1])]
+        out.append((got, exp))
+        if got != exp:
+            return (f'{"first" if step == 0 else "second (after the region was modified: " + op["op"] + ")"} run with the region: '
+                    f'{len(got)} islands, filter by own-pixel membership of the region as it is now gives {len(exp)}'), out
+    return None, out
+
+
+def run_reuse(ctx, n):
+    rng = ctx.rng
+    nbad = changed = 0
+    for k in range(n):
+        case, wh, reg, table, conv_ok, meta = mk_region_case(rng)
+        before = stored_json(reg)
+        op = reuse_op(rng, wh, meta)
+        try:
+            msg, out = reuse_problem(case, wh, reg, meta, op)
+        except Exception as e:  # noqa
+            msg, out = f'find_islands raised {type(e).__name__}: {e}', []
+        diff = len(out) == 2 and out[0][1] != out[1][1]
+        changed += diff
+        ctx.case(key=json.dumps(['reuse', ic.case_json(case), meta, op], sort_keys=True) if diff else None,
+                 bucket=f'region reused after {op["op"]}: kept islands {"change" if diff else "same"}')
+        if msg:
+            nbad += 1
+            if nbad <= 3:
+                m2 = dict(meta, region=before, reuse_op=op)
+                ctx.mismatch('region object reused by a second finder run after it was modified', {**ic.case_json(case), **m2}, impl=msg,
+                             is_violation={'case': ic.case_json(case), 'meta': m2, 'what': msg})
+    ctx.oblige(f'region reuse: {n} (finder run; modify the same Region; finder run) sequences follow the region as it is at each run '
+               f'({changed} sequences where the modification changes the kept islands)', nbad == 0, f'{nbad} sequences differ')
+    ctx.oblige('region reuse: some sequences change the set of kept islands', changed > 0 or n < 10, f'{changed} of {n}')
+
+
 def run(ctx, model_ok=True):
     rng = ctx.rng
     quick = ctx.tier == 'quick'
@@ -185,6 +275,7 @@ def run(ctx, model_ok=True):
             ctx.oblige(f'correspondence: {len(vals)} (image, wcs, region) cases equal to the model', nbad == 0, f'{nbad} differ')
             ctx.traces = len(vals)
     # ---- command line tie: the argument glue of AegeanTools/CLI vs the library call that --help promises
+    run_reuse(ctx, 60 if quick else 600)
     from harness import cli_cases
     cli_cases.hook(ctx, cli_cases.aegean_region_cli, 'aegean --region')
 
@@ -203,10 +294,25 @@ def _one(rng):
     return None
 
 
+def _one_reuse(rng):
+    case, wh, reg, table, conv_ok, meta = mk_region_case(rng)
+    before = stored_json(reg)
+    op = reuse_op(rng, wh, meta)
+    try:
+        msg, _ = reuse_problem(case, wh, reg, meta, op)
+    except Exception as e:  # noqa
+        msg = f'find_islands raised {type(e).__name__}: {e}'
+    if msg:
+        return {'case': ic.case_json(case), 'meta': dict(meta, region=before, reuse_op=op), 'what': msg}
+    return None
+
+
 def search(ctx):
     t0 = time.time()
+    k = 0
     while time.time() - t0 < 120:
-        r = _one(ctx.rng)
+        k += 1
+        r = _one(ctx.rng) if k % 2 else _one_reuse(ctx.rng)
         if r:
             return r
     return None
@@ -232,6 +338,12 @@ def replay(ctx, obj):
     for d, ps in m.get('region', {}).items():
         reg.add_pixels(ps, int(d))
     R, C = m['shape']
+    if m.get('reuse_op'):
+        msg, out = reuse_problem(case, wh, reg, m, m['reuse_op'])
+        for k, (g, e) in enumerate(out):
+            print(f'run {k + 1}: with region {len(g)} islands, expected {len(e)}')
+        print('implementation:', msg or 'property holds on this sequence')
+        return 1 if msg else 0
     got = ic.run_impl(case, region=reg, wcs=wh)
     free = ic.run_impl(case)
     import healpy as hp
